@@ -22,7 +22,8 @@ func init() {
 			"R4 listings go through mergeIter (sorted, de-duplicated: C05.R2), which forgives a member's name-unknown by clearing that same member's error, not the other's. " +
 			"R5 the sequential read returns the first member's answer only when it succeeded; R6 a helper that cancels the member's context before returning is not used for answers that are still to be read (BlobReader). " +
 			"R4b the merged listing is sorted by the unifier itself. " +
-			"R0 the unifier holds its two members in two different fields.",
+			"R0 the unifier holds its two members in two different fields. " +
+			"R4c a member's listing error is cleared only when that very error is name-unknown.",
 		NotDecided: "observable equality of the two members after arbitrary write histories, and equality of results of the two read policies on values, are not decided.",
 		Technique:  "static analysis: delegation/fan-out shape on SSA, dominance of both-succeeded conditions, phi-edge pairing in mergeIter",
 	})
@@ -456,10 +457,15 @@ func c15Writer(c *core.Ctx, both, br *ssa.Function) {
 	}
 }
 
-func c15MergeIter(c *core.Ctx) {
+func c15MergeIter(c *core.Ctx) { mergeIterForgiveness(c, "C15.R4") }
+
+// mergeIterForgiveness (C15.R4, C05.R8): in mergeIter a member's error is
+// cleared only on a path where that same error is established to be
+// name-unknown; every other error ends the merged listing.
+func mergeIterForgiveness(c *core.Ctx, rule string) {
 	mi := c.P.Func("ociunify", "mergeIter")
 	if mi == nil {
-		c.Fail("C15.R4", "anchor/ociunify.mergeIter", 0, "ociunify.mergeIter not found")
+		c.Fail(rule, "anchor/ociunify.mergeIter", 0, "ociunify.mergeIter not found")
 		return
 	}
 	c.Analysed("ociunify.mergeIter")
@@ -491,6 +497,16 @@ func c15MergeIter(c *core.Ctx) {
 					}
 				}
 				if forgiven == nil {
+					// an error variable is cleared without its own name-unknown test in force
+					real := false
+					for _, o := range others {
+						if _, isEx := rootErr(o).(*ssa.Extract); isEx {
+							real = true
+						}
+					}
+					if real {
+						c.Fail(rule, "mergeIter/forgive-only-name-unknown", ph.Pos(), "a member's listing error is cleared on a path where it is not established that this very error is name-unknown (e.g. because the OTHER member reported name-unknown): the member's real failure is dropped and the merged listing ends early without an error")
+					}
 					continue
 				}
 				n++
@@ -500,12 +516,12 @@ func c15MergeIter(c *core.Ctx) {
 						same = true
 					}
 				}
-				c.Check(same, "C15.R4", "mergeIter/forgive-own-error", ph.Pos(), "a member's name-unknown clears that member's own error", "mergeIter forgives one member's name-unknown error by clearing the OTHER member's error variable: a listing of a repository known to only one member ends with a name-unknown error (or hides the other member's real error)")
+				c.Check(same, rule, "mergeIter/forgive-own-error", ph.Pos(), "a member's name-unknown clears that member's own error", "mergeIter forgives one member's name-unknown error by clearing the OTHER member's error variable: a listing of a repository known to only one member ends with a name-unknown error (or hides the other member's real error)")
 			}
 		}
 	}
 	if n < 2 {
-		c.Fail("C15.R4", "mergeIter/forgive-own-error", mi.Pos(), sprintf("only %d name-unknown forgiveness sites found in mergeIter", n))
+		c.Fail(rule, "mergeIter/forgive-own-error", mi.Pos(), sprintf("only %d name-unknown forgiveness sites found in mergeIter", n))
 	}
 }
 
